@@ -206,9 +206,18 @@ def run_one(workdir, idx, rnd, mode, ct):
     if rnd.random() < 0.5:
         rejected = {c for c in all_codes if rnd.random() < 0.2 and not (many and c[0] == "sg")}
 
+    # with a twin module the filter sometimes admits only ONE of the two files: equal code objects on opposite sides
+    # of the filter (a vendored copy that is excluded, a private copy of an excluded module that is included)
+    only_file = None
+    if twin is not None and rnd.random() < 0.5:
+        only_file = rnd.choice(paths)
+
     def admit(code):
+        if only_file is not None and code.co_filename != only_file:
+            return False
         return code.co_filename in pathset and (code.co_name, code.co_firstlineno) not in rejected
-    use_filter = rnd.random() < 0.8
+    use_filter = rnd.random() < 0.8 or only_file is not None
+    order = [mod, twin] if twin is not None and rnd.random() < 0.5 else ([twin, mod] if twin is not None else [mod])
     draws = []
     rng = random.Random(rnd.randrange(1 << 30))
     real_randrange = random.randrange
@@ -226,9 +235,11 @@ def run_one(workdir, idx, rnd, mode, ct):
     sys.setprofile(rec)
     try:
         try:
-            mod.main()
-            if twin is not None:
-                twin.main()
+            for _m in order:
+                _m.main()
+            if twin is not None and rnd.random() < 0.5:     # and once more, the other way round
+                for _m in reversed(order):
+                    _m.main()
         except BaseException as e:       # the workload itself failed: not the tracer's business, but note it
             crashed = f"{type(e).__name__}: {e}"
     finally:
@@ -264,7 +275,7 @@ def run_one(workdir, idx, rnd, mode, ct):
         del sys.modules[name + "_twin"]
     stats = {"events": len(events), "frames": len(rec.frames), "logged": len(impl), "rate": rate, "k": k,
              "filter": use_filter, "rejected": sorted(f"{n}@{l}" for n, l in rejected), "crashed": crashed, "errors": rec.errors[:3],
-             "twin": twin is not None, "many_live": many, "gens": src.count("yield"), "awaits": src.count("await Susp"), "residue": len(residue)}
+             "twin": twin is not None, "twin_one_file_admitted": only_file is not None, "many_live": many, "gens": src.count("yield"), "awaits": src.count("await Susp"), "residue": len(residue)}
     return {"term": term, "stats": stats, "src": src if idx < 2 else None, "prog": name}
 
 
